@@ -248,8 +248,10 @@ def run_ghost_code(e: Engine, st: State, code: str, k=None):
                     if cur is not None and val.ty.kind != "none":
                         val = e.coerce(val, cur.ty)
                     st.store["ghost." + t.attr] = val
+                elif isinstance(t, ast.Attribute):
+                    e.assign(t, val, st)        # ghost field of an object (never read by the code)
                 else:
-                    raise Unsupported("ghost code may only assign ghost.<name>")
+                    raise Unsupported("ghost code may only assign ghost.<name> or a ghost field")
             else:
                 raise Unsupported("ghost statement")
     finally:
@@ -325,6 +327,16 @@ def havoc(e: Engine, st: State, names: Set[str], fields: Set[str], spec, cells=N
             if cur.ty.kind == "obj":
                 e.assume_alive(st, st.store[nme])
         # names first assigned inside the loop need no havoc
+    # aliases (`self.offsets = offsets = []`): the linked heap cells follow the havocked local
+    for grp in st.links:
+        src = next((g for g in grp if g[0] == "name" and g[1] in names and g[1] in st.store), None)
+        if src is not None:
+            for g in grp:
+                if g[0] == "attr":
+                    saved_pr = e.pending_raises
+                    e.pending_raises = []
+                    e.store_field(st, g[1], g[2], st.store[src[1]])
+                    e.pending_raises = saved_pr
     cells = cells or {}
     whole = set()
     for fname in fields:
